@@ -60,6 +60,31 @@ func (t *Table) Uint(i int) uint64 {
 // applies the recognised init() fill idiom and refuses (error) if the variable is stored to
 // or escapes anywhere else in the package.
 func (p *GoProg) EvalTable(name string) (*Table, error) {
+	if cst, ok := p.Pkg.Types.Scope().Lookup(name).(*types.Const); ok && cst.Val().Kind() == constant.String {
+		// an immutable byte table written as a string constant, indexed like an array
+		sv := constant.StringVal(cst.Val())
+		t := &Table{Name: name, Len: len(sv), Elem: types.Typ[types.Byte]}
+		for _, f := range p.Files {
+			for _, d := range f.Decls {
+				if gd, ok := d.(*ast.GenDecl); ok && gd.Tok == token.CONST {
+					for _, sp := range gd.Specs {
+						for _, n := range sp.(*ast.ValueSpec).Names {
+							if p.Info.Defs[n] == cst {
+								t.Decl = sp.(*ast.ValueSpec)
+							}
+						}
+					}
+				}
+			}
+		}
+		if t.Decl == nil {
+			return nil, fmt.Errorf("constant %s: declaration not found", name)
+		}
+		for i := 0; i < len(sv); i++ {
+			t.Vals = append(t.Vals, constant.MakeInt64(int64(sv[i])))
+		}
+		return t, nil
+	}
 	obj, _ := p.Pkg.Types.Scope().Lookup(name).(*types.Var)
 	if obj == nil {
 		return nil, fmt.Errorf("package-level variable %s not found", name)
